@@ -86,6 +86,23 @@ def relation_traces(ctx, T):
                          "f": [v or [0, 0] for v in mf], "J": mj or [0, 0],
                          "points": {"x": float(x), "h": h, "f": [float(v) for v in f], "jacobian": float(jv[0]), "argument": repr(arg)[:80]}})
             ctx.count({"t": label, "x": float(x), "how": how}, True)
+    # the Jacobian exactly AT the points where the formula changes branch
+    for label, mk, xs, bps in tc.catalogue(T):
+        if not bps or ("BoxCox2sym" in label and mk.params.get("nu", 0) < 0.05):
+            continue
+        t = mk.fresh()
+        for b in bps:
+            d = 2.0 ** -30 * max(1.0, abs(b))
+            try:
+                j0, jm, jp = (float(np.ravel(tc.quiet(t.jacobian, np.array([v])))[0]) for v in (b, b - d, b + d))
+            except Exception as e:
+                ctx.violation("%s:exception" % label.split("(")[0], "%s jacobian at the branch point raised %r" % (label, e), {"transform": label})
+                continue
+            m0, mm, mp = tc.mant(j0), tc.mant(jm), tc.mant(jp)
+            recs.append({"kind": "jbranch", "label": label, "bad": any(v is None for v in (m0, mm, mp)),
+                         "J0": m0 or [0, 0], "Jm": mm or [0, 0], "Jp": mp or [0, 0],
+                         "points": {"branch_point": float(b), "jacobian": [jm, j0, jp]}})
+            ctx.count({"t": label, "branch": float(b)}, True)
     # instance reuse: built and used with a neighbouring setting, then re-parameterised (4 styles) to this one: forward still increasing
     nchain = 0
     for label, prev, cur, style in tc.reuse_chains(tc.catalogue(T)):
